@@ -11,7 +11,12 @@
    finished"), it holds for every EVQE operator, and the two clauses that carry it are FALSE without it — the loop
    consults its limits only between applications, and `terminate` is assigned (not or-ed) from the criterion's
    answer: see C12_criterion_stops_needs_single_result.  The hypothesis-free forms are C12_start_sees_generations
-   and C12_criterion_last_answer. *)
+   and C12_criterion_last_answer.
+
+   evqe_shape (the hypothesis of the *_evqe theorems) is a statement about the world; here it is an assumption checked on
+   every recorded real run.  builder-repro composes this loop model with the models of the EVQE operators
+   (Repro/Compose.v) and instantiates the *_evqe theorems for that composed model without the shape hypothesis; those
+   closed instances are stated in Props/C17.v (names C17_run_...), not here. *)
 From QV Require Import Common.Base Solver.Loop Solver.Ledger Solver.Ledger_proofs Solver.Loop_proofs Solver.Exact_proofs
   Solver.Shape_proofs Solver.SolverCheck.
 From Coq Require Import QArith.
@@ -45,7 +50,12 @@ Section C12.
     ng = n_results t1 /\ forall G, cfg_max_generations _ _ _ _ _ cfg = Some G -> (Z.of_nat ng < G)%Z.
   Proof. exact (start_sees_generations Ind R Pop Op W Init Dist AuxEv AV best_value best_ind). Qed.
 
-  (* max_generations = G >= 1 the only limit, applications report at most one result and do not raise, every complete
+  (* Why G + 1 passes of fuel and not G: the loop notices that the maximum is reached only at the limit check in front
+     of the NEXT operator.  If the G-th result is reported by the last operator of a pass, that pass ends with
+     `terminate` still False, `while not terminate` enters one more pass, and its first limit check sets the flag and
+     breaks without starting anything — Python needs that extra (empty) pass as well; with fuel G the model answers
+     Err OutOfFuel for such operator lists (e.g. steady_world: fuel 3 for G = 3 is an error, fuel 4 returns).
+     max_generations = G >= 1 the only limit, applications report at most one result and do not raise, every complete
      pass over the operators reports a result, fuel for G + 1 passes: the run returns, with exactly G generations, and
      the last application that was started is one that reported a result (nothing is started after the G-th result) *)
   Theorem C12_max_generations_exact : forall (cfg : config) (wd : world) G,
@@ -176,6 +186,20 @@ Proof.
   split; [apply single_result_b_sound; vm_compute; reflexivity|]. vm_compute. repeat split; reflexivity.
 Qed.
 Print Assumptions C12_example_limits.
+
+(* Non-vacuity of C12_budget with a budget that BINDS (in C12_example_limits the budget of 100 is never reached): the
+   only limit is max_circuit_evaluations = 5; two applications start (with 0 and 3 evaluations reported), 5 are then
+   reported, the third application of the script is never started and the run returns with ledger [5] *)
+Example C12_example_budget_binds :
+  c_max_evals ex_budget = Some 5%Z /\ c_max_generations ex_budget = None /\ c_criterion ex_budget = None
+  /\ length (sc_apps (c_script ex_budget)) = 3%nat
+  /\ map (fun x => match x with (_, _, led, _, _) => led end) (m_starts (fst (s_solve ex_budget))) = [[]; [3%Z]]
+  /\ exists res, snd (s_solve ex_budget) = Ok res /\ sr_circuit_evaluations _ _ _ _ _ res = [5%Z]
+       /\ sr_generations _ _ _ _ _ res = 1%nat.
+Proof.
+  repeat (split; [vm_compute; reflexivity|]). eexists. repeat split; vm_compute; reflexivity.
+Qed.
+Print Assumptions C12_example_budget_binds.
 
 (* Non-vacuity of C12_max_generations_exact: the steady world satisfies all its hypotheses for G = 3, and the run is
    what the theorem says *)
